@@ -114,3 +114,9 @@ def harnesses(tier):
             out.append(nonpositive(t, "real", timeout=60))
             out.append(spec(t, 2, "real", weights=True, timeout=180))
     return out
+
+
+def pre_checks(tier, workdir):
+    import kernels
+
+    return kernels.run_C02(tier, workdir)
